@@ -316,3 +316,39 @@ def shared_static_state(ck, F, rid, what_lock):
             ck.ob(rid, where, True, "%s: static, but only ever given values computed from constants (a cache)" % gv.get("name"), key="static-state|%s" % (gv.get("name") or "").split("::")[-1])
     ck.ob(rid, "(handler code)", not bad, "%d functions reachable from the %d handler entry points; %d static variables written there, none carrying state" % (len(reach), len(roots), n_static) if not bad else
           "%d static variable(s) of handler code carry state across pipelines" % bad, key="static-state|summary")
+
+
+DEFERRED = {"connect": ("QObject",), "singleShot": ("QTimer",), "callOnTimeout": ("QTimer",), "invokeMethod": ("QMetaObject",), "run": ("QtConcurrent",), "start": ("QThreadPool", "QTimer"),
+            "thread": ("std",), "async": ("std",)}
+
+
+def no_deferred_callbacks(ck, F, rid, allowed=()):
+    """handler code registers no callback that runs later (signal connection, timer, pool task, thread): such a callback runs
+    outside the pipeline's lock, possibly in another thread, and whatever handler state it touches is then touched unlocked"""
+    subs = F.subclasses("QtLogger::Handler") | {"QtLogger::Handler"}
+    roots = [f for f in F.fns.values() if f.body is not None and strip_tmpl(f.cls or "") in subs and f.name.split("::")[-1] in ("process", "format", "filter", "send", "attributes", "flush")]
+    reach = F.reachable_from(roots, virtual=True)
+    for f in list(F.fns.values()):
+        if f.lambda_of in reach:
+            reach.add(f.id)
+    sites = 0
+    for fid in sorted(reach):
+        f = F.fns.get(fid)
+        if f is None or f.body is None or "/src/qtlogger/" not in (f.file or ""):
+            continue
+        for n in f.calls():
+            c = n.get("callee") or ""
+            short = c.split("::")[-1].split("<")[0]
+            if short not in DEFERRED or not any(c.startswith(p_) or ("::" + p_ + "::") in c or c.startswith(p_ + "::") for p_ in DEFERRED[short]):
+                continue
+            if any(strip_tmpl(f.name).endswith(a) for a in allowed):
+                continue
+            sites += 1
+            lam = [x for a in n.get("args", []) for x in walk(a) if x.get("k") == "lambda"]
+            captures = any((x.get("captures") or x.get("caps") or []) for x in lam)
+            ck.ob(rid, sitestr(f, n), False if (lam or len(n.get("args", [])) >= 3) else None,
+                  "%s registers a callback (%s) from handler code: it runs later, outside the lock the pipeline is evaluated under (in the thread that emits the signal / the pool), "
+                  "and the handler state it shares with %s is then read and written concurrently with other producers" % (strip_tmpl(f.name).split("QtLogger::")[-1], describe(n)[:50], strip_tmpl(f.name).split("::")[-1]),
+                  key="deferred-callback|%s" % strip_tmpl(f.name).split("::")[-1])
+    if not sites:
+        ck.ob(rid, "(handler code)", True, "no signal connection, timer, pool task or thread is created by code reachable from the handler entry points (%d functions)" % len(reach), key="deferred-callback|none")
